@@ -447,6 +447,8 @@ view_step!(view_q_ab_id_a_optb, RAB, [true, true] x 2,
     views = (entity::Identifier, &A, Option<&B>), bind = (id, a, ob), checks = [(id id), (req 0 a), (opt 1 ob)]);
 view_step!(view_q_dbwa_gap, RDBWA, [true, false, true, true] x 2,
     views = (entity::Identifier, Option<&B>, &W, Option<&A>), bind = (id, ob, w, oa), checks = [(id id), (opt 1 ob), (req 2 w), (opt 3 oa)]);
+view_step!(view_q_dbwa_optmut_then_later, RDBWA, [true, true, true, true] x 2,
+    views = (entity::Identifier, Option<&mut D>, &B, Option<&mut W>, &mut A), bind = (id, od, bb, ow, a), checks = [(id id), (opt 0 od), (req 1 bb), (opt 2 ow), (req 3 a)]);
 view_step!(view_t_dbwa_rev_order, RDBWA, [true, true, true, true] x 2,
     views = (entity::Identifier, &A, Option<&mut W>, &B, Option<&D>), bind = (id, a, ow, bb, od), checks = [(id id), (req 3 a), (opt 2 ow), (req 1 bb), (opt 0 od)]);
 view_step!(view_t_dbwa_absent_opts, RDBWA, [false, true, false, true] x 3,
